@@ -1,4 +1,4 @@
-def replay_pack(tags, lengths, encoding, values=None, cfg=None):
+def replay_pack(tags, lengths, encoding, values=None, cfg=None, greedy=False):
     from cardutil import iso8583
     import copy
     from cardutil.config import config
@@ -44,6 +44,8 @@ def replay_pack(tags, lengths, encoding, values=None, cfg=None):
         c += len(o)
         if c not in bounds:
             return True, 'sub-element split between carriers', 'C12/split'
+    if greedy and len(outs) != len(ref):
+        return True, 'packed into %d carriers, greedy packing gives %d' % (len(outs), len(ref)), 'C02/pds-greedy'
     if len(ref) <= len(car) and len(outs) > len(car):
         return True, 'packed into %d carriers, %d suffice' % (len(outs), len(ref)), 'C12/capacity'
     try:
